@@ -60,10 +60,12 @@ class Ctx(object):
         return self.backend in adapters.ROUTINES[rid][2]
 
     # -- correspondence: model routine vs implementation
-    def corr(self, cases, nontrivial=None, tol=core.TOL, functional=False):
-        """functional=True: [model routine = specification] is a theorem of this
-        property, so an input on which model and implementation differ is a
-        failing input of the property itself"""
+    def corr(self, cases, nontrivial=None, tol=core.TOL, functional=True):
+        """functional=True (default: every modelled routine now has its refinement /
+        characterisation theorems in coq/Props): an input on which model and
+        implementation differ is a failing input - the implementation no longer
+        computes the function the theorems are about.  Pass functional=False for
+        streams where the model is only a convenience (nothing at present)."""
         self._functional = functional
         cases = [c for c in cases if self.supports(c[0])]
         if not cases:
@@ -85,7 +87,7 @@ class Ctx(object):
             if d:
                 self.add_mismatch(rid, args, mv, iv, d)
 
-    def corr_values(self, name, rid, items, tol=core.TOL, functional=False):
+    def corr_values(self, name, rid, items, tol=core.TOL, functional=True):
         """correspondence for routines that need a custom implementation driver:
         items = [(model_args, impl_value_canonical, decode)] where decode maps the
         parsed model value to something comparable with the implementation value"""
